@@ -252,3 +252,31 @@ func Verif_C17_take2() {
 	}
 	verifReach("take2")
 }
+
+// H17d: two concurrent Take callers of one uncached key with an instantaneous,
+// successful fetch, under every interleaving with a bounded number of
+// preemptions at synchronisation operations (sched_fork): the fetch runs
+// exactly once and both callers get its value — in particular when the second
+// caller misses the cache before the first caller's flight has stored the
+// value and enters the single-flight group only after that flight is over.
+func Verif_C17_take_race() {
+	verifExactTTL = true
+	cache, err := NewCache(time.Minute)
+	verifAssert(err == nil, "cache is created")
+	calls := 0
+	fetch := func() (any, error) {
+		calls++
+		return 42, nil
+	}
+	var v1, v2 any
+	var e1, e2 error
+	done := make(chan struct{}, 2)
+	go func() { v1, e1 = cache.Take("k", fetch); done <- struct{}{} }()
+	go func() { v2, e2 = cache.Take("k", fetch); done <- struct{}{} }()
+	<-done
+	<-done
+	verifYield()
+	verifAssert(e1 == nil && e2 == nil && v1 == 42 && v2 == 42, "both concurrent Take callers get the fetched value")
+	verifAssert(calls == 1, "the fetch function runs at most once among concurrent Take callers of one key, whatever the interleaving")
+	verifReach("take-race")
+}
